@@ -45,7 +45,19 @@ void verif_oom_handler(uint64_t name, uint64_t alloc, uint64_t amount) { (void)n
 void verif_bad_size_handler(uint64_t name, uint64_t alloc, uint64_t passed, uint64_t supported)
 { (void)name; (void)alloc; n_badsize++; bad_passed = passed; bad_supported = supported; }
 #ifndef OWN_INVALID_POINTER_HOOK
-void verif_invalid_pointer(uint64_t name, uint64_t alloc, uint64_t ptr) { (void)name; (void)alloc; n_invptr++; inv_ptr = ptr; }
+void verif_invalid_pointer(uint64_t name, uint64_t alloc, uint64_t ptr)
+{
+    (void)name; (void)alloc; n_invptr++; inv_ptr = ptr;
+#ifdef HANDLER_STOPS
+#ifdef HANDLER_CHECK
+    HANDLER_CHECK();             /* state snapshot comparison: reported before the allocator state changed */
+#endif
+#ifdef WITNESS
+    ASSERT(0, "WITNESS: invalid-pointer handler reached");
+#endif
+    ASSUME(0);                   /* the handler ends the program */
+#endif
+}
 #endif
 #ifndef OWN_LEAK_HOOK
 void verif_leak_handler(uint64_t name, uint64_t alloc, uint64_t amount) { (void)name; (void)alloc; n_leak++; leak_amount = (int64_t)amount; }
@@ -75,8 +87,7 @@ static uint64_t up_alloc(uint64_t size, uint64_t align)
     n_up_alloc++; up_last_req = size;
     ASSERT(!up_alloc_forbidden, "upstream allocation requested where none is allowed");
     if (up_fail_allowed && nondet_u8() != 0) return 0;          /* upstream failure at any call */
-    ASSERT(fresh_used < n_fresh && n_blk < MAXB, "harness bound: more upstream blocks requested than provided for");
-    if (!(fresh_used < n_fresh && n_blk < MAXB)) return 0;
+    ASSUME(fresh_used < n_fresh && n_blk < MAXB);              /* harness bound: number of fresh upstream blocks per query */
     uint64_t a = fresh_addr[fresh_used++];
     ASSUME(IN_HEAP(a, size));                                   /* bound: the block must fit the modelled heap */
     blk_addr[n_blk] = a; blk_size[n_blk] = size; blk_out[n_blk] = 1; blk_returned[n_blk] = 0; blk_seq[n_blk] = seq_ctr++; blk_align[n_blk] = align;
